@@ -53,7 +53,14 @@ Definition hex_digit (d: N) : N := if N.ltb d 10 then (48 + d)%N else (87 + d)%N
 Fixpoint hex_fixed (width: nat) (n: N) (acc: str) : str :=
   match width with
   | O => acc
-  | S w => hex_fixed w (N.div n 16) (hex_digit (N.modulo n 16) :: acc)
+  | S w => hex_fixed w (N.shiftr n 4) (hex_digit (N.land n 15) :: acc)
+  end.
+
+(* truncated subtraction, structurally on the subtrahend *)
+Fixpoint nsub (n m: nat) {struct m} : nat :=
+  match m with
+  | O => n
+  | S m' => match n with O => O | S n' => nsub n' m' end
   end.
 
 Fixpoint concat_str (l: list str) : str :=
